@@ -33,6 +33,8 @@ type Outcome struct {
 // Stats accumulates coverage for a batch; one instance per worker, merged at
 // the end.
 type Stats struct {
+	// beat counts Add/Inc/Case calls: the hang watchdog's sign of life
+	beat     int64
 	Counters map[string]int64
 	Distinct map[uint64]struct{}
 	Prints   map[uint64]struct{}
@@ -47,6 +49,7 @@ func (s *Stats) Add(name string, n int64) {
 	if s == nil {
 		return
 	}
+	atomic.AddInt64(&s.beat, 1)
 	s.Counters[name] += n
 }
 func (s *Stats) Inc(name string) { s.Add(name, 1) }
@@ -363,24 +366,25 @@ func (ck *Check) Main(args []string) {
 		bstart := time.Now()
 		// hang watchdog: which run each worker is in, and since when
 		curRun := make([]int64, workers)
-		curSince := make([]int64, workers)
+		curStats := make([]*Stats, workers)
 		for w := range curRun {
 			curRun[w] = -1
+			curStats[w] = NewStats()
 		}
 		wdStop := make(chan struct{})
-		go ck.watchdog(b, seed, tier, curRun, curSince, wdStop)
+		go ck.watchdog(b, seed, tier, curRun, curStats, wdStop)
 		for w := 0; w < workers; w++ {
 			wg.Add(1)
 			w := w
 			go func() {
 				defer wg.Done()
-				st := NewStats()
+				st := curStats[w]
 				for atomic.LoadInt32(&stop) == 0 {
 					i := int(atomic.AddInt64(&next, 1) - 1)
 					if i >= n {
 						break
 					}
-					atomic.StoreInt64(&curSince[w], time.Now().UnixNano())
+					atomic.AddInt64(&st.beat, 1)
 					atomic.StoreInt64(&curRun[w], int64(i))
 					t := NewTape(Mix(seed, ck.Prop+"/"+b.Name, uint64(i)))
 					out := safeRun(b, &RunCtx{T: t, Index: i, Tier: tier, St: st})
@@ -631,7 +635,7 @@ func (ck *Check) replay(path string) int {
 			bb := *b
 			if !b.Isolated {
 				// a recorded hang is replayed in a child process under a time limit
-				bb.ChildTimeout = 90 * time.Second
+				bb.ChildTimeout = 300 * time.Second
 				bb.TimeoutIsViolation = true
 			}
 			out, _, ok = ck.runTapeIsolated(&bb, rf.Seed, rf.Tier, rf.Run, rf.Tape, true)
@@ -732,20 +736,23 @@ func (ck *Check) reportIsolated(v viol, seed uint64, tier string) string {
 	return path
 }
 
-// watchdog detects a run that does not return (library code looping for ever
-// cannot be interrupted from inside the process).  A run that has been going for
-// hangAfter is re-executed in a fresh child process with a generous limit: only
-// if the child does not finish either is it reported as a violation (class
-// "hang"); a merely slow machine never produces a VIOLATION.
-func (ck *Check) watchdog(b *Batch, seed uint64, tier string, curRun, curSince []int64, stop chan struct{}) {
-	hangAfter := 30 * time.Second
+// watchdog detects a library call that does not return (library code looping
+// for ever cannot be interrupted from inside the process).  The harness gives a
+// sign of life (Stats.beat) between any two library calls; a worker that has
+// shown none for two consecutive periods of hangAfter while inside a run is
+// stuck in a single call.  No call into this library legitimately takes that
+// long (the largest built-in budget, 3 million operations, is a fraction of a
+// second), so a slow machine does not raise an alarm.
+func (ck *Check) watchdog(b *Batch, seed uint64, tier string, curRun []int64, curStats []*Stats, stop chan struct{}) {
+	hangAfter := 60 * time.Second
 	if s := os.Getenv("VERIF_HANG_AFTER_S"); s != "" {
 		if v, err := strconv.Atoi(s); err == nil && v > 0 {
 			hangAfter = time.Duration(v) * time.Second
 		}
 	}
-	checked := map[int64]bool{}
-	tick := time.NewTicker(2 * time.Second)
+	lastBeat := make([]int64, len(curRun))
+	stalled := make([]int, len(curRun))
+	tick := time.NewTicker(hangAfter)
 	defer tick.Stop()
 	for {
 		select {
@@ -753,23 +760,20 @@ func (ck *Check) watchdog(b *Batch, seed uint64, tier string, curRun, curSince [
 			return
 		case <-tick.C:
 		}
-		now := time.Now().UnixNano()
 		for w := range curRun {
 			i := atomic.LoadInt64(&curRun[w])
-			if i < 0 || checked[i] || time.Duration(now-atomic.LoadInt64(&curSince[w])) < hangAfter {
+			beat := atomic.LoadInt64(&curStats[w].beat)
+			if i < 0 || beat != lastBeat[w] {
+				lastBeat[w] = beat
+				stalled[w] = 0
 				continue
 			}
-			checked[i] = true
-			fmt.Fprintf(os.Stderr, "watchdog: run %d of batch %s has not returned for %v; re-executing it in a child process\n", i, b.Name, hangAfter)
-			bb := *b
-			bb.ChildTimeout = 3 * hangAfter
-			bb.TimeoutIsViolation = true
-			r := ck.spawn(&bb, seed, []string{"child", b.Name, tier, strconv.Itoa(int(i)), strconv.Itoa(int(i) + 1)}, nil, false)
-			if !r.timedOut {
-				fmt.Fprintf(os.Stderr, "watchdog: the child finished (exit %d): slow, not hanging\n", r.exitCode)
+			stalled[w]++
+			if stalled[w] < 2 {
+				fmt.Fprintf(os.Stderr, "watchdog: run %d of batch %s has shown no sign of life for %v\n", i, b.Name, hangAfter)
 				continue
 			}
-			out := &Outcome{Class: "hang", Key: "hang:" + b.Name, Detail: fmt.Sprintf("run %d did not return within %v in-process nor within %v in a fresh child process: the library call does not terminate", i, hangAfter, 3*hangAfter)}
+			out := &Outcome{Class: "hang", Key: "hang:" + b.Name, Detail: fmt.Sprintf("run %d: a single library call has not returned for more than %v: it does not terminate", i, 2*hangAfter)}
 			tape := RawTape(Mix(seed, ck.Prop+"/"+b.Name, uint64(i)), 1<<12)
 			rf := ReplayFile{Property: ck.Prop, Harness: ck.Harness, Batch: b.Name, Seed: seed, Run: int(i), Tier: tier, Tape: tape, Build: os.Getenv("VERIF_BUILD"), Outcome: out}
 			dir := os.Getenv("VERIF_REPLAY_DIR")
